@@ -238,7 +238,9 @@ def shamir_reader_rules(ctx, R1, R3):
             yel = y.args[0].args[1]                   # iterator.map(decode).collect::<Result<Vec<_>, _>>()?
             collected = True
         yw = Q.find_all(yel, lambda t: t.op == "as_array") if yel is not None else []
-        if xw and yw:
+        if xw and yw and lin.window(xw[0]) is None:
+            det = "x is not decoded from a byte window of the input: %s" % S(xw[0], 4)
+        elif xw and yw:
             bx, lox, hix = lin.window(xw[0])
             okx = Q.path_of(bx) == "s" and L.lin(lox).key() == lin.Lin(0).key() and L.lin(hix).key() == lin.Lin(24).key()
             oky = False
@@ -305,7 +307,7 @@ def run(ctx):
     iA, iS, iC, iD, iJ = (fidx(ctx, SH, n) for n in ("A", "S", "C", "D", "J"))
     eng, ret, st, fr = ctx.root("adss::Share::to_bytes")
     at = ctx.fn("adss::Share::to_bytes").loc
-    wt = classify_writer(Q.parts_of(ret)) if ret is not None else []
+    wt = classify_writer(Q.unroll_literal_loops(Q.split_chain_loops(Q.parts_of(ret)))) if ret is not None else []
     def src(t):
         return sorted(Q.params(Q.leaves(t))) if is_t(t) else None
     wtab = [(k, src(t)) for k, t in wt]
@@ -347,7 +349,7 @@ def run(ctx):
     ic, ish, itg = (fidx(ctx, M, n) for n in ("ciphertext", "share", "tag"))
     eng, ret, st, fr = ctx.root("sta_rs::Message::to_bytes")
     at = ctx.fn("sta_rs::Message::to_bytes").loc
-    wt = classify_writer(Q.parts_of(ret)) if ret is not None else []
+    wt = classify_writer(Q.unroll_literal_loops(Q.split_chain_loops(Q.parts_of(ret)))) if ret is not None else []
     wtab = [(k, src(t)) for k, t in wt]
     okw = [k for k, _ in wtab] == ["lp", "lp", "lp"] and all(p.startswith("self.%d" % ic) for p in wtab[0][1]) and \
         all(p.startswith("self.%d" % ish) for p in wtab[1][1]) and wtab[2][1] == ["self.%d" % itg]
